@@ -19,12 +19,13 @@ RULE = (
 RULE += (" " + 'The menu includes multi-condition rules whose later condition fails and a good rule sharing its nested condition text with a failing rule; the stand-alone references are computed with emptied module caches of the library.')
 ASSUMPTIONS = ["per-rule fresh conversion (new backend class instance, new pipeline from the same dict, freshly loaded rule) is the reference",
                "errors are compared by type and message"]
-MENU = ["ok1", "ok2", "ok_lin", "off", "F_pipe", "F_item", "F_ph", "F_type", "F_cond", "F_neg", "ok_cased_sw", "F_cond2", "F_ph2", "ok_opt", "F_load"]
+MENU = ["ok1", "ok2", "ok_lin", "off", "F_pipe", "F_item", "F_ph", "F_type", "F_cond", "F_neg", "ok_cased_sw", "F_cond2", "F_ph2", "ok_opt", "F_load", "F_dup"]
+CORE = ["ok1", "ok2", "ok_lin", "off", "F_pipe", "F_ph", "F_neg", "F_cond2", "F_dup"]
 BOUNDS = {"quick": dict(n=4), "thorough": dict(n=5)}
 
 
 def bounds(tier):
-    return dict(BOUNDS[tier], menu=MENU, collect_errors=[False, True], pipelines=["none", "P"], backends=["Ka", "Kb(not_eq)"])
+    return dict(BOUNDS[tier], menu=MENU, core_menu_for_length_n=CORE, collect_errors=[False, True], pipelines=["none", "P"], backends=["Ka", "Kb(not_eq)"])
 
 
 def rule_dict(kind, i):
@@ -40,6 +41,8 @@ def rule_dict(kind, i):
         "ok_opt": {"sel": {"f1": f"o{i}"}, "condition": ["sel and not 1 of filter_*", "sel or all of nope*"]},
         # loaded with collected errors: the detection section is a placeholder, the rule cannot be converted
         "F_load": {"sel": {"f1|re": "(a"}, "condition": "sel"},
+        # verbatim copies of one failing rule (same title, id and content at every position): one record each
+        "F_dup": {"sel": {"f1|expand": "%nope%"}, "condition": "sel"},
         "F_cond2": {"sel": {"f1": f"c{i}"}, "condition": ["sel", "sel and missing"]},
         "F_ph2": {"sel": {"f1": f"p{i}"}, "ph": {"f2|expand": "%nope%"}, "condition": ["sel", "sel or ph", "sel"]},
         "F_pipe": {"sel": {"f1": "x"}, "condition": "sel"},
@@ -51,6 +54,8 @@ def rule_dict(kind, i):
         "ok_cased_sw": {"sel": {"f1|cased|startswith": "Ab"}, "condition": "sel"},
     }[kind]
     base["detection"] = d
+    if kind == "F_dup":
+        base["title"], base["id"] = "F_dup", "00000000-0000-0000-0000-00000000dddd"
     if kind == "ok_lin":
         base["logsource"] = {"category": "c", "product": "linux"}
     if kind == "F_pipe":
@@ -157,7 +162,7 @@ def run_history(hist, kname, pname, collect):
     except Exception as e:
         obs["result"] = ("crash", type(e).__name__, str(e)[:200])
     try:
-        obs["errors"] = [(rules.index(r),) + norm_err(type(e).__name__, str(e)) for r, e in b.errors]
+        obs["errors"] = [(next(k for k, x in enumerate(rules) if x is r),) + norm_err(type(e).__name__, str(e)) for r, e in b.errors]
     except Exception as ex:  # the error list does not consist of (rule, error) pairs
         obs["errors"] = [("malformed-error-records", type(ex).__name__, [type(x).__name__ for x in b.errors][:6])]
     obs["class_changed"] = V.class_attrs_intact(cls)
@@ -188,7 +193,7 @@ def expected(hist, kname, pname, collect):
 
 def stage_of(kind):
     return {"F_pipe": "pipeline-rule-failure", "F_item": "pipeline-item-failure", "F_ph": "unresolved-placeholder", "F_type": "unsupported-value-type",
-            "F_cond": "missing-detection", "F_neg": "placeholder-under-not", "F_cond2": "missing-detection-in-later-condition", "F_ph2": "unresolved-placeholder-in-later-condition", "F_load": "loaded-with-errors"}.get(kind, kind)
+            "F_cond": "missing-detection", "F_neg": "placeholder-under-not", "F_cond2": "missing-detection-in-later-condition", "F_ph2": "unresolved-placeholder-in-later-condition", "F_load": "loaded-with-errors", "F_dup": "unresolved-placeholder"}.get(kind, kind)
 
 
 def judge(res, st, hist, kname, pname, collect):
@@ -234,7 +239,11 @@ def run_shard(shard, tier, seed):
         judge(res, st, (), "Ka", "P", True)
         return res
     n = BOUNDS[tier]["n"]
-    for hist in E.histories(MENU, n, prefix=(first,)):
+    # every history up to n-1 rules over the full menu; histories of exactly n rules over the core menu (one rule kind per mechanism)
+    hists = list(E.histories(MENU, n - 1, prefix=(first,)))
+    if first in CORE:
+        hists += [h for h in E.histories(CORE, n, prefix=(first,)) if len(h) == n]
+    for hist in hists:
         judge(res, st, hist, kname, pname, collect)
         if len(res["samples"]) < 1 and len(hist) == n:
             res["samples"].append({"history": list(hist), "backend": kname, "pipeline": pname, "collect_errors": collect})
